@@ -59,6 +59,9 @@ func runLines(s *Session) []N {
 	dc.Add("m", map[string]int64{"k": 1})
 	dc.Add("ev", func(v interface{}) {})
 	dc.Add("boom", func() int64 { panic("boom") })
+	dc.Add("uz", uint64(0))
+	dc.Add("iz", int64(0))
+	dc.Add("fz", float64(0))
 	rb := builder.NewRuleBuilder(dc)
 	if err := rb.BuildRuleFromString(text); err != nil {
 		return []N{{"ev": "session", "id": s.ID}, {"ev": "lskip", "why": trunc(err.Error(), 160), "class": s.Class}}
